@@ -314,6 +314,30 @@ def run(prog: Program) -> Results:
                 res.add("R-C18-8", (f.key, "blank-line flag kept although the comment list holds the blank line", it), f.loc(c),
                         f"{f.key}: `{norm(c)[:70]}` keeps the blank-line flag of `{L}` while `{it}` may be non-empty and nothing cleared "
                         f"it: a comment followed by a blank line in that gap is rendered with two blank lines")
+    # ---------------------------------------------------------------- R-C18-9
+    r9 = res.rule("R-C18-9", "a blank line next to an opening/closing delimiter is recorded once: a from_cst either lets "
+                  "parse_delimited_sequence record it as an empty_line marker (open_token/close_token given) or measures it itself "
+                  "into a `*_blank_line` flag that its rebuild turns into a blank line — never both", floor=3)
+    for f in prog.all_functions():
+        calls = [c for c in walk_no_nested(f.node) if isinstance(c, ast.Call) and callee(c) in ("parse_delimited_sequence", "parse_binding_sequence")]
+        for c in calls:
+            if callee(c) != "parse_delimited_sequence":
+                continue
+            r9.instances += 1
+            tokens = [k.arg for k in c.keywords if k.arg in ("open_token", "close_token") and not (isinstance(k.value, ast.Constant) and k.value.value is None)]
+            host = f
+            while host.parent is not None:
+                host = host.parent
+            own_flags = sorted({norm(d.targets[0]) for d in ast.walk(host.node) if isinstance(d, ast.Assign) and isinstance(d.targets[0], ast.Name)
+                                and d.targets[0].id.endswith("blank_line") and isinstance(d.value, ast.Call)
+                                and (callee(d.value) or "").startswith("gap_has_empty_line")})
+            ok = not (tokens and own_flags)
+            r9.ob(ok, {"site": f.key, "delimiter_tokens_given": tokens, "own_flags": own_flags})
+            if not ok:
+                res.add("R-C18-9", (host.key, "blank line at a delimiter recorded twice", ",".join(own_flags)), f.loc(c),
+                        f"{host.key}: parse_delimited_sequence is given {tokens} (it then stores an empty_line marker for a blank line next to "
+                        f"the delimiter) while the same function also measures {own_flags}: the rebuild emits the blank line from both, "
+                        f"i.e. two consecutive blank lines")
     res.assumptions = ["`;`/`:` attachment and exactly-one-space between tokens are value-level facts not decided here"]
     return res
 
